@@ -13,7 +13,7 @@
                         unlinked, re-parented, the path index re-keyed and the referrer list taken out of the map.
      K11_setref         set_reference_target: DEST and the referrer map are updated before the text write that fails. *)
 From AV Require Import Base.Bytes Base.Outcome Hash.HashModel Tree.Heap Tree.Ops Tree.Script Tree.Inv Tree.InvProofs
-  Tree.Index Tree.Observe Tree.Fail Tree.FailProofs Tree.FailProofsInv Tree.FailWitness Tree.FailTables Spec.SpecReal.
+  Tree.Index Tree.Observe Tree.Fail Tree.FailProofs Tree.FailProofsInv Tree.FailWitness Tree.FailTables Tree.FailRepair Spec.SpecReal.
 Open Scope list_scope.
 Open Scope N_scope.
 
@@ -68,6 +68,20 @@ Proof. exact FailProofs.C11_known_characterised. Qed.
 (* [F] the table assumption holds for the generated specification tables (all 5080 data types swept by vm_compute) *)
 Theorem C11_real_tables_ok : tables_ok11 RT.
 Proof. exact real_tables_ok11. Qed.
+
+(* [U] what validate-before-mutate needs for K11_setref: whenever set_reference_target fails late, the text write that
+   failed fails in the UNMODIFIED world too, with nothing written - doing it before the DEST / referrer-map update makes
+   the call atomic *)
+Theorem C11_setref_precheck :
+  forall (T : tables) (tab_el tab_en : nametab) (check_fn : N -> list N -> res bool) (LATEST : N)
+         (h target : id) (w : world) (e : err) (w' : world),
+  e_set_reference_target T tab_el tab_en check_fn LATEST h target w = Val (ER e, w') ->
+  w' = w \/
+  (e = IncorrectContentType /\
+   exists new_ref version,
+     path_id T target w = Val (OK new_ref, w) /\ min_version LATEST h w = Val (OK version, w) /\
+     raw_set_character_data T check_fn h (DString new_ref) version w = Val (ER IncorrectContentType, w)).
+Proof. exact K11_setref_precheck. Qed.
 
 (* findings: the literal statement is refuted in each class (tiny table set, reachable worlds) *)
 Theorem C11_move_refwrite_refuted :
